@@ -87,9 +87,23 @@ func propertyClosure(p *load.Program, prop string) map[string]bool {
 					if it == nil {
 						continue
 					}
+					found := false
 					for _, mk := range byMethod[cc.Method.Name()] {
 						if rt := p.Funcs[mk].Signature.Recv().Type(); types.Implements(rt, it) || implementsInstantiated(rt, cc.Value.Type()) {
 							add(mk)
+							found = true
+						}
+					}
+					if !found {
+						// no repository type under contract implements the whole interface: the object behind it is composed of
+						// parts (a struct embedding smaller interfaces, like the write-ahead log). Take the methods of that name
+						// and signature instead.
+						for _, mk := range byMethod[cc.Method.Name()] {
+							ms := p.Funcs[mk].Signature
+							plain := types.NewSignatureType(nil, nil, nil, ms.Params(), ms.Results(), ms.Variadic())
+							if types.Identical(plain, cc.Method.Type()) {
+								add(mk)
+							}
 						}
 					}
 					continue
